@@ -56,8 +56,20 @@ example :
     let d : DerefSpec := ⟨"rax".toList, some "rbx".toList, none, some "0x10".toList⟩
     (build (yO d.toPat) >>= fun n => typ .operand .mnemonic n []) = .ok (d.toPat, []) := by
   intro d
-  have hb := build_deref d
+  have hb := build_deref d.fields (by decide)
   have ht := typ_deref d.fields Times.one (by decide) [] .operand (Or.inl rfl)
   simp only [DerefSpec.toPat, hb, bind, Except.bind, ht]
+
+/-- the same for a `$deref` whose components are alternatives, `main_reg: [{$or: [rax, rbx]}]`: it is in the
+source fragment of the front end (`srcO`), so the pipeline theorems cover rule files that use it -/
+example :
+    let d : DerefAlt := ⟨["rax".toList, "rbx".toList], none, none, some ["0x8".toList, "0x10".toList]⟩
+    let p : Pat := .mnem "mov".toList [d.toPat, .operand "rcx".toList false] Times.one
+    srcIL [p] = true ∧ litI (.and [p] Times.one) = true ∧ nonNull (.and [p] Times.one) = true ∧
+      foundSpec ⟨false, false⟩ (.and [p] Times.one)
+        [⟨"1".toList, "mov".toList, ["[%rbx+0x10]".toList, "%rcx".toList]⟩] = true ∧
+      foundSpec ⟨false, false⟩ (.and [p] Times.one)
+        [⟨"1".toList, "mov".toList, ["[%rcx+0x10]".toList, "%rcx".toList]⟩] = false := by
+  decide +kernel
 
 end Jasm.C06
